@@ -49,9 +49,17 @@ func (f *Cond) Call(s *slip.Scope, args slip.List, depth int) (result slip.Objec
 		if !ok || len(clause) == 0 {
 			slip.TypePanic(s, depth, "clause", a, "list")
 		}
-		if slip.EvalArg(s, clause, 0, d2) == nil {
+		test := slip.EvalArg(s, clause, 0, d2)
+		if vs, ok := test.(slip.Values); ok { // only the primary value of the test counts
+			test = nil
+			if 0 < len(vs) {
+				test = vs[0]
+			}
+		}
+		if test == nil {
 			continue
 		}
+		result = test // a clause without forms returns the value of its test
 		for i := 1; i < len(clause); i++ {
 			result = slip.EvalArg(s, clause, i, d2)
 			switch result.(type) {
